@@ -426,6 +426,14 @@ pub fn mutate(rng: &mut Rng, b: &Base, m: usize) -> (Vec<u8>, String) {
                 .collect();
             let j = if !structural.is_empty() && rng.chance(3, 4) { *rng.pick(&structural) } else { rng.below(n) };
             let mut chunks: Vec<Vec<u32>> = (0..n).map(|i| { let (s, e) = inst_range(i); b.words[s..e].to_vec() }).collect();
+            let head = b.words[..b.starts[0]].to_vec();
+            let finish = move |chunks: Vec<Vec<u32>>, label: String| {
+                let mut out = head.clone();
+                for c in chunks {
+                    out.extend(c);
+                }
+                (to_bytes(&out), label)
+            };
             let what = match rng.below(6) {
                 0 => {
                     chunks.remove(j);
@@ -437,6 +445,14 @@ pub fn mutate(rng: &mut Rng, b: &Base, m: usize) -> (Vec<u8>, String) {
                     chunks.insert(at, c);
                     format!("repeated before instruction #{}", at + 1)
                 }
+                2 | 3 if structural.iter().any(|i| b.insts[*i].opname() == "FunctionEnd" && *i > 0) => {
+                    // the end of a function changes places with the instruction in front of it (usually the
+                    // terminator of the last block: the function ends while its block is open)
+                    let ends: Vec<usize> = structural.iter().cloned().filter(|i| b.insts[*i].opname() == "FunctionEnd" && *i > 0).collect();
+                    let e = *rng.pick(&ends);
+                    chunks.swap(e - 1, e);
+                    return finish(chunks, format!("OpFunctionEnd (instruction #{}) swapped with the instruction in front of it", e + 1));
+                }
                 _ => {
                     let d = *rng.pick(&[-3i64, -2, -1, -1, 1, 1, 2, 3]);
                     let to = (j as i64 + d).clamp(0, n as i64 - 1) as usize;
@@ -445,11 +461,8 @@ pub fn mutate(rng: &mut Rng, b: &Base, m: usize) -> (Vec<u8>, String) {
                     format!("moved to position #{}", to + 1)
                 }
             };
-            let mut out = b.words[..b.starts[0]].to_vec();
-            for c in chunks {
-                out.extend(c);
-            }
-            (to_bytes(&out), format!("Op{} (instruction #{}) {}", b.insts[j].opname(), j + 1, what))
+            let (bytes, _) = finish(chunks, String::new());
+            (bytes, format!("Op{} (instruction #{}) {}", b.insts[j].opname(), j + 1, what))
         }
         _ => {
             // two mutations stacked
